@@ -406,6 +406,9 @@ func (p *prepared) exec1() (r result) {
 		if v := recover(); v != nil {
 			if _, ok := v.(verifrt.WorkCapTrip); ok {
 				r.tripped = true
+			} else if lim, ok := v.(verifrt.TooManyGoroutines); ok {
+				verifh.HarnessError("%v", lim)
+				r.tripped = true
 			} else {
 				r.panicked, r.pval = true, v
 			}
@@ -500,10 +503,51 @@ func (p *prepared) exec1() (r result) {
 		in, err := otp.HexInputToOCRA(f(0), f(1), f(2), f(3), f(4))
 		r.vals, r.err = []any{in}, err
 		r.bys = append(r.bys, in.Counter, in.Challenge, in.Password, in.SessionInfo, in.Timestamp)
+	case "SuiteChurn":
+		n := int(c.Counter)
+		first := make([]otp.SuiteConfig, n)
+		firstErr := make([]bool, n)
+		bad := -1
+		for pass := 0; pass < 2 && bad < 0; pass++ {
+			for i := 0; i < n; i++ {
+				s, err := otp.NewRawSuite(churnName(c.N + i))
+				var cfg otp.SuiteConfig
+				if s != nil && err == nil {
+					cfg = s.Config()
+				}
+				if pass == 0 {
+					first[i], firstErr[i] = cfg, err != nil
+				} else if cfg != first[i] || (err != nil) != firstErr[i] {
+					bad = i
+					break
+				}
+			}
+		}
+		if bad >= 0 {
+			r.vals = []any{"churn-mismatch", churnName(c.N + bad)}
+		} else {
+			r.vals = []any{"churn-ok"}
+		}
 	case "FromStr":
 		r.vals = []any{otp.DigitsFromStr(c.Str), otp.AlgorithmFromStr(c.Str), otp.Algorithm(c.N).String()}
 	}
 	return r
+}
+
+// churnName: the i-th of ~3 700 distinct well-formed unregistered suite names (no fmt: runs inside tasks).
+func churnName(i int) string {
+	if i < 0 {
+		i = -i
+	}
+	hash := []string{"SHA1", "SHA256", "SHA512"}[i%3]
+	dig := []string{"4", "5", "6", "7", "8", "9", "10"}[(i/3)%7]
+	n := 1 + (i/21)%59
+	unit := []string{"S", "M", "H"}[(i/(21*59))%3]
+	num := []byte{byte('0' + n/10), byte('0' + n%10)}
+	if n < 10 {
+		num = num[1:]
+	}
+	return "OCRA-1:HOTP-" + hash + "-" + dig + ":QN08-T" + string(num) + unit
 }
 
 // canon renders a result for comparison (driver only; uses fmt).
@@ -793,6 +837,18 @@ type runInfo struct {
 	log        []string
 }
 
+// drv runs driver-side code that calls the library ("alone"). When the library
+// starts goroutines of its own, even that must happen inside a scheduler run
+// (one caller, no forced switches), or those goroutines would run outside the
+// baton discipline.
+func drv(f func()) {
+	if verifrt.LibGoroutines {
+		verifrt.RunAlone(f)
+		return
+	}
+	f()
+}
+
 func Run(pl *Plan, logOn bool) (*verifh.Violation, *runInfo) {
 	info := &runInfo{}
 	prop := pl.Prop
@@ -810,7 +866,8 @@ func Run(pl *Plan, logOn bool) (*verifh.Violation, *runInfo) {
 	}
 	// registry as this run found it: only what this run's own calls change is
 	// attributed to it (and therefore replays from its plan alone)
-	startReg := takeRegistry()
+	var startReg registrySnap
+	drv(func() { startReg = takeRegistry() })
 	for _, sp := range pl.SharedParams {
 		p := otp.Param{Digits: otp.Digits(sp.Digits), Algorithm: otp.Algorithm(sp.Algo), Period: uint(sp.Period), Skew: uint(sp.Skew)}
 		cp := p
@@ -826,27 +883,31 @@ func Run(pl *Plan, logOn bool) (*verifh.Violation, *runInfo) {
 	defer func() { rand.Reader = oldReader }()
 
 	// sequential history before the concurrent phase
-	for i := range pl.Warm {
-		p := e.prepare(&pl.Warm[i], 5000+i)
-		e.prepCode(p)
-		verifrt.ResetMeter(workCap)
-		_ = p.exec()
-	}
-	verifrt.ResetMeter(0)
+	drv(func() {
+		for i := range pl.Warm {
+			p := e.prepare(&pl.Warm[i], 5000+i)
+			e.prepCode(p)
+			verifrt.ResetMeter(workCap)
+			_ = p.exec()
+		}
+		verifrt.ResetMeter(0)
+	})
 
 	// prepare tasks + reference run (each distinct call executed alone)
 	var tasks []*taskState
 	ref := make([][]string, len(pl.Tasks))
-	for ti := range pl.Tasks {
-		t := &taskState{id: ti, retainBad: -1, arenaBad: -1, argBad: -1, defBad: -1, shArenaBad: -1, shParamBad: -1, finished: make(chan struct{})}
-		for ci := range pl.Tasks[ti] {
-			p := e.prepare(&pl.Tasks[ti][ci], ti*100+ci)
-			e.prepCode(p)
-			t.calls = append(t.calls, p)
+	drv(func() {
+		for ti := range pl.Tasks {
+			t := &taskState{id: ti, retainBad: -1, arenaBad: -1, argBad: -1, defBad: -1, shArenaBad: -1, shParamBad: -1, finished: make(chan struct{})}
+			for ci := range pl.Tasks[ti] {
+				p := e.prepare(&pl.Tasks[ti][ci], ti*100+ci)
+				e.prepCode(p)
+				t.calls = append(t.calls, p)
+			}
+			t.res = make([]result, len(t.calls))
+			tasks = append(tasks, t)
 		}
-		t.res = make([]result, len(t.calls))
-		tasks = append(tasks, t)
-	}
+	})
 	runRef := func() {
 		for ti, t := range tasks {
 			ref[ti] = ref[ti][:0]
@@ -859,7 +920,7 @@ func Run(pl *Plan, logOn bool) (*verifh.Violation, *runInfo) {
 		verifrt.ResetMeter(0)
 	}
 	if !pl.RefAfter {
-		runRef()
+		drv(runRef)
 	}
 	if prop == "C08" {
 		absorb(rd)
@@ -891,7 +952,7 @@ func Run(pl *Plan, logOn bool) (*verifh.Violation, *runInfo) {
 	}
 	readerStart := rd.Pos
 	verifrt.PoolSimStart(verifrt.PoolConfig{Dec: pl.Pool.Dec, Poison: pl.Pool.Poison, PoisonSeed: pl.Pool.PoisonSeed, MissW: pl.Pool.MissW, DropW: pl.Pool.DropW})
-	verifrt.SchedStart(verifrt.SchedConfig{Tasks: total, After: pl.Sched.After, To: pl.Sched.To, Hot: pl.Sched.Hot, HotSites: pl.Sched.HotSites, HotReader: pl.Sched.HotReader, Trace: logOn})
+	verifrt.SchedStart(verifrt.SchedConfig{Tasks: total, After: pl.Sched.After, To: pl.Sched.To, Hot: pl.Sched.Hot, HotSites: pl.Sched.HotSites, HotReader: pl.Sched.HotReader, Trace: logOn, Starve: pl.Sched.Starve, StarveAt: pl.Sched.StarveAt})
 	for _, t := range tasks {
 		go e.taskBody(t)
 	}
@@ -909,9 +970,18 @@ func Run(pl *Plan, logOn bool) (*verifh.Violation, *runInfo) {
 	}
 	info.traceHash = verifrt.TraceHash()
 	info.switches = verifrt.Switches
+	if verifrt.LibGoroutines {
+		verifh.Count("stat.goroutines-started-by-the-library", verifrt.Spawned)
+		verifh.Count("probe.library-goroutine-alive-from-an-earlier-run", verifrt.CarriedOver)
+		verifh.Count("probe.library-goroutine-still-waiting-at-end-of-run", verifrt.LeftWaiting)
+	}
 	faults := verifrt.Switches + verifrt.PoolMisses + verifrt.PoolSteals + verifrt.PoolDrops + verifrt.PoolPoisons + verifrt.PoolDrains
 	info.nontrivial = faults > 0
 	verifh.Count("fault.task-switch", verifrt.Switches)
+	if pl.Sched.Starve > 0 {
+		verifh.Count("fault.caller-stalled-inside-a-call", verifrt.Starved)
+		verifrt.Starved = 0
+	}
 	verifh.Count("fault.pool-miss(New)", verifrt.PoolMisses)
 	verifh.Count("fault.pool-returns-non-LIFO-object", verifrt.PoolSteals)
 	verifh.Count("fault.pool-drop-on-Put", verifrt.PoolDrops)
@@ -940,12 +1010,19 @@ func Run(pl *Plan, logOn bool) (*verifh.Violation, *runInfo) {
 		// "what it returns when called alone", established after the concurrent
 		// phase so that the tasks met every lazily initialised cache cold
 		logLen := len(rd.Log)
-		runRef()
+		drv(runRef)
 		rd.Log = rd.Log[:logLen]
 		verifh.Count("probe.reference-after-concurrent-phase", 1)
 	}
 
 	// ---------------- oracles ----------------
+	var ov *verifh.Violation
+	drv(func() { ov, _ = e.oracles(pl, prop, tasks, ref, rd, readerStart, startReg, auditBad, info, fail) })
+	return ov, info
+}
+
+func (e *env) oracles(pl *Plan, prop string, tasks []*taskState, ref [][]string, rd *verifrt.Reader, readerStart uint64, startReg registrySnap, auditBad string, info *runInfo,
+	fail func(clause, op, witness, detail string) (*verifh.Violation, *runInfo)) (*verifh.Violation, *runInfo) {
 	switch prop {
 	case "C11":
 		for ti, t := range tasks {
@@ -956,6 +1033,9 @@ func Run(pl *Plan, logOn bool) (*verifh.Violation, *runInfo) {
 				}
 				// compare against retained snapshot values (the live values may have been scribbled)
 				got := canon(p.c.Op, snapView(r))
+				if p.c.Op == "SuiteChurn" && len(r.vals) == 2 {
+					return fail("same-call-same-result", "NewRawSuite", "result-changes-with-history", fmt.Sprintf("task %d call %d: NewRawSuite(%q) returned a different configuration the second time it was asked within one history of %d distinct lookups", ti, ci, r.vals[1], p.c.Counter))
+				}
 				if got != ref[ti][ci] {
 					return fail("result==alone", p.c.Op, "differs-from-sequential-reference", fmt.Sprintf("task %d call %d %s: concurrent result %s, alone %s", ti, ci, p.c.Op, clip(got), clip(ref[ti][ci])))
 				}
@@ -971,6 +1051,31 @@ func Run(pl *Plan, logOn bool) (*verifh.Violation, *runInfo) {
 			if t.retainBad >= 0 {
 				p := t.calls[t.retainBad]
 				return fail("returned-value-stable", p.c.Op, "retained-result-changed", fmt.Sprintf("task %d: value returned by call %d (%s) changed before the end of the run", ti, t.retainBad, p.c.Op))
+			}
+		}
+	case "C13":
+		// the verdict clause of C13 for validations made while other callers are
+		// inside the library (World B decides the sequential domain)
+		for ti, t := range tasks {
+			for ci, p := range t.calls {
+				r := &t.res[ci]
+				if !strings.HasPrefix(p.c.Op, "Validate") || !r.done || r.panicked || r.tripped || len(r.vals) != 1 {
+					continue
+				}
+				ok, isBool := r.vals[0].(bool)
+				if !isBool {
+					continue
+				}
+				verifh.Count("oracle.verdict-pairs-judged", 1)
+				if ok && r.err != nil {
+					return fail("verdict-shape(concurrent)", p.c.Op, "true-with-error", fmt.Sprintf("task %d call %d: %s returned (true, %v) while %d other tasks were calling the library", ti, ci, p.c.Op, r.err, len(tasks)-1))
+				}
+				if !ok && r.err == nil {
+					return fail("verdict-shape(concurrent)", p.c.Op, "false-without-error", fmt.Sprintf("task %d call %d: %s returned (false, nil) for code %q while %d other tasks were calling the library", ti, ci, p.c.Op, p.code, len(tasks)-1))
+				}
+				if r.err != nil && len(p.secret) >= 16 && strings.Contains(r.err.Error(), strings.TrimRight(p.secret, "=")) {
+					return fail("no-disclosure(concurrent)", p.c.Op, "error-contains-secret", fmt.Sprintf("task %d call %d: the error of %s contains the caller's secret", ti, ci, p.c.Op))
+				}
 			}
 		}
 	case "C12":
